@@ -36,6 +36,9 @@ def fold_string(e, resolve=None):
         return _merge(fold_string(e['args'][0], resolve) + fold_string(e['args'][1], resolve))
     if k == 'call' and e.get('callee') == 'std::to_string':
         return [('num', SX.show(SX.real_args(e)[0]))]
+    if k == 'cond':
+        # a text chosen by a condition: kept as alternatives (a template with alternatives never equals a fixed expected template)
+        return [('alt', '%s ? %s : %s' % (SX.show(e['c'])[:40], _render(fold_string(e['t'], resolve)), _render(fold_string(e['f'], resolve))))]
     if k == 'ref' and resolve is not None:
         r = resolve(e)
         if r is not None:
